@@ -71,7 +71,18 @@ def r19a(ctx):
                 if isinstance(s, ast.If) and isinstance(s.test, ast.Call) and isinstance(s.test.func, ast.Attribute) \
                         and s.test.func.attr == "startswith" and ast.unparse(s.test.func.value).replace(" ", "") == name_expr:
                     raises = bool(s.body) and isinstance(s.body[-1], ast.Raise)
-            if ok and raises and len(node.args) == 2:
+            # the guarded name must still hold the tested value when getattr reads it: no store to it after the test
+            guard_line = min((s.lineno for s in walk_no_nested(gm.node) if isinstance(s, ast.If) and isinstance(s.test, ast.Call)
+                              and isinstance(s.test.func, ast.Attribute) and s.test.func.attr == "startswith"
+                              and ast.unparse(s.test.func.value).replace(" ", "") == name_expr), default=None)
+            restore = [x for x in walk_no_nested(gm.node) if isinstance(x, ast.Name) and isinstance(x.ctx, ast.Store)
+                       and x.id == name_expr and guard_line is not None and guard_line < x.lineno <= node.lineno]
+            if ok and raises and restore:
+                ctx.violation("R19a", m.files[MOD], "get_member", restore[0], "getattr guarded",
+                              f"`{name_expr}` is tested with startswith('_') and then re-assigned (line {restore[0].lineno}) before "
+                              f"getattr(obj, {name_expr}) reads it: the value that is looked up is not the value that was tested "
+                              f"(e.g. a normalisation that turns a look-alike character into '_')")
+            elif ok and raises and len(node.args) == 2:
                 ctx.proved("R19a", m.files[MOD], "get_member", node, "getattr guarded",
                            f"getattr(obj, {name_expr}) is dominated by `if {name_expr}.startswith('_'): raise`")
             else:
